@@ -81,6 +81,7 @@ func tableOf(p *Plan, name string) *Table {
 
 func runShadow(p *Plan) *shadowRun {
 	sr := &shadowRun{s0: DBState{}, ok: true}
+	autoStep = int64(p.AutoStep)
 	auto := map[string]*int64{}
 	for _, t := range p.Tables {
 		st := &TabState{Name: t.Name}
@@ -188,6 +189,20 @@ func c09Foreign(p *Plan, sr *shadowRun, r *hutil.Rng) {
 	row := e.Rows[r.Intn(len(e.Rows))]
 	differentVals := func(base []Val, cols []int) []Val {
 		nv := append([]Val{}, base...)
+		if len(cols) == 1 && r.Chance(2, 3) {
+			// prefer a column of the same group (written / unwritten) that has a NEARBY value: sub-second, last digit, trailing blank
+			var near []int
+			for ci := range t.Cols {
+				inMask := e.Mask == nil || e.Mask[ci]
+				baseIn := e.Mask == nil || e.Mask[cols[0]]
+				if _, ok := nearVal(hutil.NewRng(1), t.Cols[ci], base[ci]); ok && inMask == baseIn {
+					near = append(near, ci)
+				}
+			}
+			if len(near) > 0 {
+				cols = []int{near[r.Intn(len(near))]}
+			}
+		}
 		for _, ci := range cols {
 			if nv2, ok := nearVal(r, t.Cols[ci], base[ci]); ok && r.Chance(1, 2) {
 				nv[ci] = nv2
@@ -296,7 +311,8 @@ const faultPattern = "^(?i)\\s*(START TRANSACTION|BEGIN|COMMIT|UPDATE|DELETE|INS
 var faultKinds = []string{"BEGIN", "EXEC", "QUERY", "PREPARE", "STMT_EXEC", "STMT_QUERY", "COMMIT"}
 
 func buildScenario(p *Plan) (atrun.Scenario, *stepIdx) {
-	sc := atrun.Scenario{Name: p.Name, Config: p.Config}
+	// every plan runs under the same database name (on its own server): process-wide state keyed by database name is shared
+	sc := atrun.Scenario{Name: p.Name, Config: p.Config, DB: "atroll", FixedDB: true, AutoIncStep: p.AutoStep}
 	for _, t := range p.Tables {
 		sc.Setup = append(sc.Setup, t.ddl())
 	}
